@@ -3,19 +3,33 @@ use super::common::*;
 use crate::engine::{Outcome, Property, Tier};
 use crate::hist::{history_brief, history_strategy, History, World};
 use crate::sut::{self, Filter};
-use proptest::strategy::{BoxedStrategy, Strategy};
+use proptest::prelude::*;
+
+fn budgets() -> impl Strategy<Value = Vec<u16>> {
+    prop_oneof![3 => Just(vec![]), 2 => prop::collection::vec(1u16..6, 1..4)]
+}
 
 pub struct C01;
 
+#[derive(Clone, Debug, serde::Serialize, serde::Deserialize)]
+pub struct Case01 {
+    #[serde(flatten)]
+    pub hist: History,
+    /// Per-round budgets for time-sliced ingestion (empty = unsliced): queries are also asked at
+    /// every pause point.
+    #[serde(default)]
+    pub budgets: Vec<u16>,
+}
+
 impl Property for C01 {
-    type Case = History;
+    type Case = Case01;
     fn id(&self) -> &'static str {
         "C01"
     }
-    fn strategy(&self, tier: Tier) -> BoxedStrategy<History> {
+    fn strategy(&self, tier: Tier) -> BoxedStrategy<Case01> {
         match tier {
-            Tier::Quick => crate::hist::history_strategy_big(24, 3, true, true, true).boxed(),
-            Tier::Thorough => crate::hist::history_strategy_big(50, 4, true, true, true).boxed(),
+            Tier::Quick => (crate::hist::history_strategy_big(24, 3, true, true, true), budgets()).prop_map(|(hist, budgets)| Case01 { hist, budgets }).boxed(),
+            Tier::Thorough => (crate::hist::history_strategy_big(50, 4, true, true, true), budgets()).prop_map(|(hist, budgets)| Case01 { hist, budgets }).boxed(),
         }
     }
     fn cases(&self, tier: Tier) -> u32 {
@@ -25,7 +39,7 @@ impl Property for C01 {
         }
     }
     fn rule(&self) -> String {
-        "Generated histories (fork trees with arrival orders, per-block difficulties, transaction graphs over a small script pool incl. prefix-colliding bech32 address pairs, shared transactions, same-block spends, threshold changes, upgrades) on all three networks; after every operation every pool address is queried without filter through the real endpoint and through the page-size hook (all pages followed) and compared in both directions with a naive replay ledger as of the block the answer names as tip. A query is non-trivial when the expected set is non-empty and (the address has stable funds changed by unstable blocks, or the history has had a reorg / shared transaction / same-block spend, or a funded address whose text extends the queried one exists); distinct = distinct (tree shape, query result shape) hashes.".into()
+        "Generated histories (fork trees with arrival orders, per-block difficulties, transaction graphs over a small script pool incl. prefix-colliding bech32 address pairs, shared transactions, same-block spends, threshold changes, upgrades) on all three networks; after every operation (and, in 40% of the histories, after every paused round of a time-sliced ingestion with budgets of 1..5 operations) every pool address is queried without filter through the real endpoint and through the page-size hook (all pages followed) and compared in both directions with a naive replay ledger as of the block the answer names as tip. A query is non-trivial when the expected set is non-empty and (the address has stable funds changed by unstable blocks, or the history has had a reorg / shared transaction / same-block spend, or a funded address whose text extends the queried one exists); distinct = distinct (tree shape, query result shape) hashes.".into()
     }
     fn assumptions(&self) -> Vec<String> {
         vec![
@@ -35,8 +49,8 @@ impl Property for C01 {
             "order inside one height is unspecified and not compared".into(),
         ]
     }
-    fn brief(&self, case: &History) -> serde_json::Value {
-        history_brief(case)
+    fn brief(&self, case: &Case01) -> serde_json::Value {
+        serde_json::json!({"budgets": case.budgets, "history": history_brief(&case.hist)})
     }
     fn required_classes(&self, _tier: Tier) -> Vec<&'static str> {
         vec![
@@ -52,16 +66,41 @@ impl Property for C01 {
             "net_regtest",
             "driver_validated_mined",
             "q_multi_page",
+            "q_while_ingestion_paused",
         ]
     }
-    fn run(&self, case: &History) -> Outcome {
+    fn run(&self, case: &Case01) -> Outcome {
+        let budgets = case.budgets.clone();
+        let case = &case.hist;
         let mut out = Outcome::default();
         let mut w = World::new(&case.cfg);
+        w.slice_budgets = budgets;
         history_classes(case, &mut out);
         let mut flags = (false, false, false);
         let addrs = w.distinct_addresses();
         for (i, op) in case.ops.iter().enumerate() {
-            let info = w.apply(i, op);
+            let mut pause_out = Outcome::default();
+            let addrs_p = addrs.clone();
+            let net = case.cfg.net;
+            let info = w.apply_with(i, op, &mut |w2: &mut World, round: u32| {
+                // a query asked while the stabilising block is only partially ingested
+                pause_out.class("q_while_ingestion_paused");
+                for a in &addrs_p {
+                    let ctx = format!("step {i} paused round {round} get_utxos({a})");
+                    match sut::get_utxos_all_pages(net, a, &Filter::None, if round % 2 == 0 { None } else { Some(200 + (round as usize % 3)) }) {
+                        Ok(Ok((ans, _))) => {
+                            compare_utxos(w2, a, &ans, &mut pause_out, &ctx);
+                        }
+                        Ok(Err(e)) => pause_out.fail(format!("{ctx}: unexpected error {e}")),
+                        Err(p) => pause_out.fail(format!("{ctx}: trapped: {p}")),
+                    }
+                }
+            });
+            out.checks += pause_out.checks;
+            out.discs.extend(pause_out.discs);
+            for (k, v) in pause_out.classes {
+                out.class_n(k, v);
+            }
             if step_errors(&info, &mut out) {
                 return out;
             }
